@@ -12,7 +12,7 @@ from . import core, suite, fncases
 from . import formula as F
 from .values import enc
 
-ALPHA = 'abcXYZ 019.,;-_/()#é É ü Ü ñ Ñ \t\x07漢字語' + "'"
+ALPHA = 'abcXYZ 019.,;-_/()#é É ü Ü ñ Ñ \t\x07漢字語' + "'" + '\\$^*+?[]{}|&<>'   # also what regex and format engines treat specially
 
 
 def rstring(rng, lo=0, hi=60):
@@ -65,7 +65,7 @@ def rand_case(rng):
             old = s[i:i + rng.randint(1, 3)]
         else:
             old = rng.choice(['zq', 'Q', 'ab', '--'])
-        new = rng.choice(['', '', 'x', 'yz', old.upper(), '漢', ' '])
+        new = rng.choice(['', '', 'x', 'yz', old.upper(), '漢', ' ', '\\n', '\\1', '\\', '\\g<0>', '$1', '&', '%s', '{0}', rstring(rng, 0, 4)])
         a = [enc(s), enc(old), enc(new)]
         if k == 4:
             a.append(enc(rng.randint(1, 4)))
